@@ -61,6 +61,7 @@ package c20
 import (
 	"context"
 	"fmt"
+	"net/http"
 	"net/url"
 	"os"
 	"path"
@@ -427,6 +428,13 @@ type expectation struct {
 	// header
 	hdrAssert bool
 	hdrWant   []string // nil = the key must be absent
+	// hdrExtraWant / hdrExtraAbsent: additional header keys that only ONE
+	// source sets. The winner's own extra key must arrive; an extra key of a
+	// valid lower-precedence source must NOT (the headers setting is taken
+	// from the highest-precedence source as a whole: all six exporters
+	// replace, none merges).
+	hdrExtraWant   []string
+	hdrExtraAbsent []string
 	// compression
 	encAssert bool
 	encWant   string
@@ -557,6 +565,16 @@ func expect(c Case) expectation {
 		case 3:
 		default:
 			e.hdrWant = []string{decodeHdr(srcs[w].Hdr)}
+		}
+		if w >= 0 && w < 3 {
+			if srcs[w].Extra != "" {
+				e.hdrExtraWant = append(e.hdrExtraWant, srcs[w].Extra)
+			}
+			for i := w + 1; i < 3; i++ {
+				if srcs[i].State == valid && srcs[i].Extra != "" {
+					e.hdrExtraAbsent = append(e.hdrExtraAbsent, srcs[i].Extra)
+				}
+			}
 		}
 	case "compression":
 		if w == -1 {
@@ -902,6 +920,16 @@ func runOTLP(c Case) (vs []vk.Violation, info vk.Info) {
 			got := r.Header["X-Verif-Src"]
 			if !sameStrs(got, e.hdrWant) {
 				bad("header_mismatch", got, "%s: header %s = %q, expected %q (winner %s)", c.Exporter, hdrKey, got, e.hdrWant, winnerName(e.v.winner))
+			}
+			for _, k := range e.hdrExtraWant {
+				if got := r.Header[http.CanonicalHeaderKey(k)]; !sameStrs(got, []string{"1"}) {
+					bad("header_mismatch", got, "%s: header %s (set only by the winning source %s) = %q, expected [\"1\"]", c.Exporter, k, winnerName(e.v.winner), got)
+				}
+			}
+			for _, k := range e.hdrExtraAbsent {
+				if got := r.Header[http.CanonicalHeaderKey(k)]; len(got) != 0 {
+					bad("headers_merged_across_sources", got, "%s: header %s is set only by a lower-precedence source but arrived (= %q) although %s provides the headers", c.Exporter, k, got, winnerName(e.v.winner))
+				}
 			}
 		}
 		// ---- compression ----
